@@ -74,9 +74,12 @@ impl<'a> RawCommand<'a> {
 }
 
 impl Autocomplete for RawCommand<'_> {
+//@ /// a raw command knows no names
+//@ open spec fn names() -> Seq<Seq<u8>> { Seq::empty() }
     #[cfg(feature = "autocomplete")]
     fn autocomplete(_p7: Request<'_>, _p8: &mut Autocompletion<'_>) {
         // noop
+//@ proof { assert(_p8.cands@ + conts(Seq::<Seq<u8>>::empty(), _p7.name()) =~= _p8.cands@); }
     }
 }
 
